@@ -1,4 +1,5 @@
 import PyemvGen.Mod.Common
+import PyemvProps.C02
 import PyemvGen.Mod.tools_xor
 import PyemvGen.Mod.tools_cbc
 namespace Pyemv.ModRefines
@@ -9,5 +10,10 @@ theorem ac_generate_arpc_1 (sk q rc : Bytes) : Gen.ac.generate_arpc_1 sk q rc = 
   simp only [tools_xor, rep_flatten, zeros, tools_cbc, bind, Except.bind, pure, Except.pure]
   repeat (first | rfl | split)
   all_goals simp_all
+
+/-- **C02 (method 1) about the translated source** -/
+theorem source_generate_arpc_1 (sk arqc rc : Bytes) (hsk : sk.length = 16) (hq : arqc.length = 8) (hrc : rc.length = 2) :
+    Gen.ac.generate_arpc_1 sk arqc rc = .ok (Spec.tdesE sk (xorB arqc (rc ++ zeros 6))) := by
+  rw [ac_generate_arpc_1]; exact C02.arpc1_eq_spec sk arqc rc hsk hq hrc
 
 end Pyemv.ModRefines
